@@ -105,9 +105,23 @@ Section Serde.
       | POptional => dflt (p_ty p)
       | PDefault v => de (p_ty p) v
       | PRequired =>
+          (* serde's `missing_field`: `T::deserialize(MissingFieldDeserializer)`, whose
+             `deserialize_option` answers None and everything else is an error.  Box<T>,
+             the `#[serde(transparent)]` newtypes and the value-constrained newtypes
+             (`<Inner>::deserialize` then `try_from`) forward `deserialize` to the inner
+             type, so a required member whose type reaches an Option through such layers
+             is accepted when absent (observed on compiled code, K5); (), Value, String,
+             string-constrained newtypes, enums, structs, sequences are errors.  These
+             are exactly the types that read `null` as the bare None (the layers are
+             transparent in [rval]; every other kind answers with another constructor):
+             SerdeProofs.missing_val_de_null / de_null_missing_val relate this test to
+             the explicit chase through the layers. *)
           match get_det T (p_ty p) with
-          | Some (DOption _) => Some ROptNone        (* serde: a missing Option field is None *)
-          | _ => None
+          | None => None
+          | Some _ => match de (p_ty p) JNull with
+                      | Some ROptNone => Some ROptNone
+                      | _ => None
+                      end
           end
       end.
 
